@@ -63,7 +63,7 @@ type c37Chain struct {
 
 func TestC37(t *testing.T) {
 	r := mc.NewRun(t, "C37", mc.Exploration)
-	r.Rule = "part 1: product of signer-info variants (9) x certificate-set variants (6) x client chains (10, incl. chains whose CA certificate carries the AS's own ISD-AS) x TRC timelines (8) x " +
+	r.Rule = "part 1: product of signer-info variants (9) x certificate-set variants (6) x client chains (10, incl. chains whose CA certificate carries the AS's own ISD-AS) x TRC timelines (14: latest only / update with the grace period running, ending now, over x predecessor validity ending before, 1 s before, at, 1 s after, long after now) x " +
 		"signed-payload variants (3) x CSR variants (8); quick = all points with <= 3 deviating dimensions, thorough = the full " +
 		"product; one case = one VerifyCMSSignedRenewalRequest call; part 1b: AS-key-signed message-digest attributes of every length 0..33 (prefixes of the true digest) and wrong digests of the right length x transmitted CSR {same, another}; part 2: CreateChain for every CA window x validity x signing " +
 		"time x curve x subject x ForceECDSAWithSHA512; non-trivial = every case (all inputs pairwise different)"
@@ -123,6 +123,15 @@ func c37Run(r *mc.Run, budget *atomic.Bool) {
 		{"update-expired", w(-10*d, 10*d), w(-2*h, -m), 3 * h},
 		{"grace-predecessor-expired", w(-10*d, -30*m), w(-h, 5*d), 2 * h},
 		{"update-not-yet-valid", w(-10*d, 10*d), w(h, 5*d), 2 * h},
+		// the predecessor's own end of validity moves across now independently of the latest TRC's grace period
+		// (doc/cryptography/trc.rst, GracePeriod: the predecessor is active until the grace period has passed OR the
+		// predecessor's expiration time is reached; validity bounds are inclusive)
+		{"grace-predecessor-ended-1s-ago", w(-10*d, -time.Second), w(-h, 5*d), 2 * h},
+		{"grace-predecessor-ends-now", w(-10*d, 0), w(-h, 5*d), 2 * h},
+		{"grace-predecessor-ends-in-1s", w(-10*d, time.Second), w(-h, 5*d), 2 * h},
+		{"grace-predecessor-expired-before-update-started", w(-10*d, -2*h), w(-h, 5*d), 400 * d},
+		{"grace-ends-now-predecessor-active", w(-10*d, 10*d), w(-h, 5*d), h},
+		{"grace-over-predecessor-expired", w(-10*d, -30*m), w(-h, 5*d), 30 * m},
 		{"no-trc", nil, nil, 0},
 	}
 	var tls []*c37TL
@@ -365,11 +374,9 @@ func c37Run(r *mc.Run, budget *atomic.Bool) {
 			case tl.latestRoots[ch.root]:
 				chainOK = true
 			case tl.inGrace && tl.predRoots[ch.root]:
-				if tl.predValidNow {
-					chainOK = true
-				} else {
-					chainEither = true // predecessor already expired although the grace period still runs
-				}
+				// trc.rst (GracePeriod, trust anchor selection): the predecessor stops being active when its own
+				// expiration time is reached, even while the grace period of the latest TRC still runs
+				chainOK = tl.predValidNow
 			}
 		}
 		allGoodButChain := siVars[sii].good && certVars[cei].good != 0 && pli == 0 && csr.good
@@ -531,7 +538,7 @@ func c37Run(r *mc.Run, budget *atomic.Bool) {
 				continue
 			}
 			ok := tl.latestValid && ch.wellFormed && ch.validAt && (tl.latestRoots[ch.root] || (tl.inGrace && tl.predRoots[ch.root] && tl.predValidNow))
-			unspecified := tl.latestValid && ch.wellFormed && ch.validAt && !tl.latestRoots[ch.root] && tl.inGrace && tl.predRoots[ch.root] && !tl.predValidNow
+			unspecified := false
 			_, verr := renewal.RequestVerifier{TRCFetcher: tl.db}.VerifyCMSSignedRenewalRequest(ctx, req.CmsSignedRequest)
 			r.CaseBulk(1, 1)
 			name := fmt.Sprintf("request built by NewChainRenewalRequest, timeline=%s chain=%s", tl.name, ch.name)
@@ -659,7 +666,7 @@ func c37Run(r *mc.Run, budget *atomic.Bool) {
 	}
 	r.Extra["part2_cases"] = n2
 	r.Assumptions = []string{
-		"a client chain that only verifies against the predecessor TRC while the grace period runs but the predecessor's own validity is over: either verdict",
+		"'its predecessor during the grace period' is read with doc/cryptography/trc.rst (GracePeriod): the predecessor is usable while now <= latest.NotBefore + grace AND now lies within the predecessor's own validity (bounds inclusive); an expired predecessor is no trust anchor even though the grace period still runs",
 		"an additional unrelated certificate in the CMS certificate set: either verdict; the order of the two chain certificates is irrelevant",
 		"'currently valid latest TRC': the TRC with the highest serial in the trust DB must contain now; otherwise every request is refused",
 		"points with several deviating dimensions only demand refusal (implication oracle)",
